@@ -16,7 +16,8 @@ Script (JSON-able):
   ["call", kind, to, vexpr, rsz, callee, rest]       kind in CALL CALLCODE DELEGATECALL STATICCALL
   ["create", vexpr, init, rest]
   ["if", expr, s1, s2]                               JUMPI on a word: s1 if it is non-zero, else s2
-expr: ["c", n] | ["a", i]   (constant | i-th 32-byte calldata argument of the transaction)
+  ["extcode", addr, off, rest]                       EXTCODESIZE addr; EXTCODECOPY of 32 bytes from off over 0xff..ff memory
+expr: ["c", n] | ["a", i] | ["v"]   (constant | i-th 32-byte calldata argument of the transaction | CALLVALUE of the frame)
 """
 import copy
 import random
@@ -62,6 +63,8 @@ _zeval.Evaluator.ev = _ev_keepalive
 def _ex(e):
     if e[0] == "c":
         return [("push", e[1])]
+    if e[0] == "v":
+        return ["CALLVALUE"]
     return [("push", 0x20 + 32 * e[1]), "CALLDATALOAD"]
 
 
@@ -111,6 +114,11 @@ def _gen(s, pos, unit):
     if k == "retcopy":
         off, size = s[1], s[2]
         return [("push", size), ("push", off), ("push", OB + pos), "RETURNDATACOPY"] + _gen(s[3], pos + size, unit)
+    if k == "extcode":
+        a, off = s[1], s[2]
+        items = [("push", a), "EXTCODESIZE"] + _mstore_at(OB + pos) + [("push", (1 << 256) - 1)] + _mstore_at(OB + pos + 32)
+        items += [("push", 32), ("push", off), ("push", OB + pos + 32), ("push", a), "EXTCODECOPY"]
+        return items + _gen(s[3], pos + 64, unit)
     if k == "if":
         lbl = unit.label("J")
         return _ex(s[1]) + [("ref", lbl), "JUMPI"] + _gen(s[3], pos, unit) + [("label", lbl)] + _gen(s[2], pos, unit)
@@ -196,35 +204,43 @@ def compile_tree(tree):
 
 # ------------------------------------------------------------------ encoding for the extracted model / spec
 
-def _val(e, args):
+def _val(e, args, cv):
+    if e[0] == "v":
+        return cv
     return e[1] if e[0] == "c" else args[e[1]]
 
 
-def enc_script(s, args):
+def enc_script(s, args, cv):
+    """flat encoding of a script under the valuation `args`; cv = CALLVALUE of the frame the
+    script runs in (the scripts of the Coq side carry concrete words)"""
     k = s[0]
     if k == "end":
         return [0, ENDS[s[1]], s[2]]
     if k == "sstore":
-        return [1, _val(s[1], args), _val(s[2], args)] + enc_script(s[3], args)
+        return [1, _val(s[1], args, cv), _val(s[2], args, cv)] + enc_script(s[3], args, cv)
     if k == "tstore":
-        return [2, _val(s[1], args), _val(s[2], args)] + enc_script(s[3], args)
+        return [2, _val(s[1], args, cv), _val(s[2], args, cv)] + enc_script(s[3], args, cv)
     if k == "log":
-        return [3] + enc_script(s[1], args)
+        return [3] + enc_script(s[1], args, cv)
     if k == "observe":
-        return [4, s[1]] + enc_script(s[2], args)
+        return [4, s[1]] + enc_script(s[2], args, cv)
     if k == "retcopy":
-        return [5, s[1], s[2]] + enc_script(s[3], args)
+        return [5, s[1], s[2]] + enc_script(s[3], args, cv)
+    if k == "extcode":
+        return [9, s[1], s[2]] + enc_script(s[3], args, cv)
     if k == "call":
         _, kind, to, v, rsz, callee, rest, idx = s
-        vv = _val(v, args) if kind in ("CALL", "CALLCODE") else 0
-        return [6, KINDS[kind], to, vv, rsz] + enc_script(callee, args) + enc_script(rest, args)
+        vv = _val(v, args, cv) if kind in ("CALL", "CALLCODE") else 0
+        sub_cv = cv if kind == "DELEGATECALL" else vv
+        return [6, KINDS[kind], to, vv, rsz] + enc_script(callee, args, sub_cv) + enc_script(rest, args, cv)
     if k == "if":
-        return [8, _val(s[1], args)] + enc_script(s[2], args) + enc_script(s[3], args)
+        return [8, _val(s[1], args, cv)] + enc_script(s[2], args, cv) + enc_script(s[3], args, cv)
     if k == "create":
         _, v, init, rest, codehex = s
         code = bytes.fromhex(codehex)
         zero = [0] * len(args)      # creation frames have no calldata: every argument reads 0
-        return [7, _val(v, args), len(code)] + list(code) + enc_script(init, zero) + enc_script(rest, args)
+        vv = _val(v, args, cv)
+        return [7, vv, len(code)] + list(code) + enc_script(init, zero, vv) + enc_script(rest, args, cv)
     raise ValueError(k)
 
 
@@ -238,7 +254,7 @@ def enc_input(t, accounts, scn, inp):
     for a in addrs:
         c = accounts.get(a)
         out += [a, bal.get(a, 0), 0 if c is None else 1, len(c or b"")] + list(c or b"") + [0]
-    return out + enc_script(t, args)
+    return out + enc_script(t, args, inp["value"])
 
 
 class _Rd(refevm._Rd):
@@ -302,6 +318,8 @@ def _expr(r, lo=False):
     c = r.random()
     if c < 0.3 and not lo:      # storage keys stay concrete: a symbolic base slot is outside halmos' storage model (C08)
         return ["a", r.randrange(NARGS)]
+    if c < 0.36 and not lo:
+        return ["v"]
     return ["c", r.choice([0, 0, 1, 5, 1000, 10 ** 18] if not lo else [0, 1, 2, 3])]
 
 
@@ -312,18 +330,19 @@ def gen_script(r, depth, in_init=False, after_call=False):
 
 
 def _const_only(e):
-    return e if e[0] == "c" else ["c", 7]
+    return e if e[0] in ("c", "v") else ["c", 7]
 
 
 def _gen_items(r, depth, n, in_init, after_call, tag):
     if n == 0:
         ek = r.choice(["return", "return", "return", "revert", "revert", "invalid", "stop"])
         return ["end", ek, tag]
-    if not in_init and r.random() < 0.1:
-        # a fork on a symbolic word of the input: halmos explores both sides
-        return ["if", ["a", r.randrange(NARGS)], _gen_items(r, depth, n - 1, in_init, after_call, tag),
+    if r.random() < 0.1:
+        # a fork on a symbolic word of the input (inside init code: the value sent along): halmos explores both sides
+        cond = ["v"] if in_init or r.random() < 0.2 else ["a", r.randrange(NARGS)]
+        return ["if", cond, _gen_items(r, depth, n - 1, in_init, after_call, tag),
                 _gen_items(r, depth, n - 1, in_init, after_call, tag ^ 0x5555)]
-    choices = ["sstore", "sstore", "tstore", "observe", "observe"]
+    choices = ["sstore", "sstore", "tstore", "observe", "observe", "extcode"]
     if depth > 0:
         choices += ["call", "call", "call", "create"]
     if after_call:
@@ -342,6 +361,10 @@ def _gen_items(r, depth, n, in_init, after_call, tag):
         return ["observe", r.choice([0, 1, 2]), _gen_items(r, depth, n - 1, in_init, after_call, tag)]
     if k == "retcopy":
         return ["retcopy", r.choice([0, 0, 32, 1, 64]), r.choice([0, 32, 32, 33, 64]), _gen_items(r, depth, n - 1, in_init, after_call, tag)]
+    if k == "extcode":
+        # an account with code, the executing one, one without account, one that a CREATE of the tree may have produced
+        a = r.choice(POOL + [THIS, NOACC, NOACC, CREATE_BASE + 1])
+        return ["extcode", a, r.choice([0, 0, 5, 31, 40, 1000]), _gen_items(r, depth, n - 1, in_init, after_call, tag)]
     if k == "call":
         kind = r.choice(["CALL", "CALL", "CALLCODE", "DELEGATECALL", "STATICCALL"])
         to = r.choice(POOL + POOL + [THIS, NOACC])
@@ -385,6 +408,12 @@ def gen_callfail(r):
     tree = ["call", kind, r.choice(POOL), ["c", 0] if r.random() < 0.7 else ["a", 0], r.choice([0, 32, 64]), forked(t0), rest]
     if r.random() < 0.5:
         tree = [st, ["c", slot], ["c", 3], tree]
+    if r.random() < 0.25:
+        # the failing frame is a creation whose init code forks on the value sent along
+        init = ["if", ["v"], failing(t0 + 20), failing(t0 + 21)]
+        tree = ["create", ["a", r.randrange(NARGS)], init, rest]
+        if r.random() < 0.5:
+            tree = [st, ["c", slot], ["c", 3], tree]
     if r.random() < 0.3:       # the whole thing one frame down
         tree = ["call", r.choice(["CALL", "DELEGATECALL"]), POOL[0], ["c", 0], 320, tree, ["observe", slot, ["end", "return", t0 + 7]]]
     return tree
@@ -417,7 +446,9 @@ def tree_stats(s, acc=None, depth=0):
             acc["symbolic_value"] = True
         tree_stats(s[2], acc, depth + 1)
         return tree_stats(s[3], acc, depth)
-    idx = {"sstore": 3, "tstore": 3, "log": 1, "observe": 2, "retcopy": 3}[k]
+    if k == "extcode":
+        acc["extcode"] = acc.get("extcode", 0) + 1
+    idx = {"sstore": 3, "tstore": 3, "log": 1, "observe": 2, "retcopy": 3, "extcode": 3}[k]
     return tree_stats(s[idx], acc, depth)
 
 
@@ -577,7 +608,7 @@ def boundary_inputs(tree, inputs, rng, limit=6):
     for payer in (THIS, rng.choice(POOL)):
         for base in inputs:
             for e in vals[:3]:
-                v = e[1] if e[0] == "c" else base["args"].get(f"arg{e[1]}", 0)
+                v = e[1] if e[0] == "c" else base["args"].get(f"arg{e[1]}", 0) if e[0] == "a" else base.get("value", 0)
                 if not 0 < v <= (1 << 120) or (payer, v) in seen:
                     continue
                 seen.add((payer, v))
